@@ -913,6 +913,8 @@ def get_stats(arr_in, weights=None, doprint=False, **kw):
         if "calcerr" not in kw:
             kw["calcerr"] = True
         mn, err, std = wmom(arr, weights, **kw)
+        # a scalar inputmean keyword comes back as a scalar
+        mn = np.zeros(ndim) + mn
     else:
         mn = arr.mean(axis=0)
         std = arr.std(axis=0)
